@@ -168,7 +168,7 @@ TESTS = {"present": ("InstanceBuilder::has_property", "::contains_key", "::conta
 
 def analyse_paths(paths, name_idx, value_idx, store_kinds):
     """per-site verdict dict from summarised paths"""
-    res = {"migrated_store": 0, "bad_name": [], "unguarded": 0, "legacy_store_on_ok": 0, "err": set(), "ok_paths": 0}
+    res = {"migrated_store": 0, "bad_name": [], "unguarded": 0, "legacy_store_on_ok": 0, "err": set(), "ok_paths": 0, "legacy_store_on_err": 0, "legacy_store_on_err_unguarded": 0}
     for fs, sinks, x, v in paths:
         st = perform_state(fs, sinks)
         stores = [(k, a) for k, a in sinks if k in store_kinds]
@@ -193,6 +193,9 @@ def analyse_paths(paths, name_idx, value_idx, store_kinds):
                 res["err"].add("hard error (returns Err)")
             elif any(not perform_terms(a[value_idx]) for k, a in stores):
                 res["err"].add("stores the unmigrated value")
+                res["legacy_store_on_err"] += 1
+                if not has_dest_absent_fact(fs, TESTS):
+                    res["legacy_store_on_err_unguarded"] += 1
             else:
                 res["err"].add("stores nothing (drops / skips the property)")
     return res
